@@ -41,13 +41,18 @@ func New(root *expr.RootExpr) *OpenAPI {
 	var (
 		bodies, types = buildBodyTypes(root.API)
 
-		info     = buildInfo(root.API)
-		comps    = buildComponents(root, types)
-		servers  = buildServers(root.API.Servers)
-		paths    = buildPaths(root.API.HTTP, bodies, root.API)
-		security = buildSecurityRequirements(root.API.Requirements)
-		tags     = buildTags(root.API)
+		info    = buildInfo(root.API)
+		comps   = buildComponents(root, types)
+		servers = buildServers(root.API.Servers)
+		paths   = buildPaths(root.API.HTTP, bodies, root.API)
+		tags    = buildTags(root.API)
 	)
+
+	// There is no document-level security requirement: each operation lists its
+	// effective requirements (with the security scheme names computed for the
+	// endpoint; API-level schemes have no location yet so their names would not
+	// resolve) and an operation without requirement (NoSecurity) must not
+	// inherit any.
 
 	return &OpenAPI{
 		OpenAPI:    OpenAPIVersion,
@@ -55,7 +60,6 @@ func New(root *expr.RootExpr) *OpenAPI {
 		Components: comps,
 		Paths:      paths,
 		Servers:    servers,
-		Security:   security,
 		Tags:       tags,
 	}
 }
@@ -446,7 +450,6 @@ func buildFileServerOperation(key string, fs *expr.HTTPFileServerExpr, api *expr
 		Parameters:   params,
 		Responses:    responses,
 		Tags:         tagNames,
-		Security:     buildSecurityRequirements(api.Requirements),
 		Deprecated:   false,
 		ExternalDocs: openapi.DocsFromExpr(fs.Docs, fs.Meta),
 		Extensions:   openapi.ExtensionsFromExpr(fs.Meta),
